@@ -68,14 +68,15 @@ ZERO_D_INDEX_DEFECT_REPAIRED = os.environ.get("C05_ZEROD", "1") == "1"       # r
 MC_INVS = ["TypeOK", "Representation", "StepsAgree", "NoNeighbourLeakImpl", "ElementOutsideRaises",
            "ReadEq", "MisshapedOnlyVectorEqualLengths", "DepartAlwaysIsTight"]
 
-FORMS = ["nested-arrays", "nested-lists", "flat+list-lengths", "flat+ndarray-lengths"]
+FORMS = ["nested-arrays", "nested-lists", "flat+list-lengths", "flat+ndarray-lengths", "flat+narrow-lengths"]
 ELEMS = ["scalar", "vec2"]
 # index replays: nested lists and nested arrays take the same constructor path (np.concatenate), so the
 # list form is compared in the attribute check only
 RFORMS = ["nested-arrays", "flat+list-lengths", "flat+ndarray-lengths"]
 # ... and an array that GREW to the shape: built from its first row, read (offsets, an element, an iteration), then
 # extended by append -- whatever a read computed and kept must not outlive the append (scalar elements only)
-VARIANTS = [(f, e) for e in ELEMS for f in RFORMS] + [("grown-by-append", "scalar")]
+# ... and flat data with the lengths in the narrowest integer type that holds each of them (their running sum need not fit)
+VARIANTS = [(f, e) for e in ELEMS for f in RFORMS] + [("grown-by-append", "scalar"), ("flat+narrow-lengths", "scalar")]
 
 # scope per tier.  emit: list of (constants, number of shape shards); mc: the same for the step machine
 # long family (RaggedRead.tla Part 6): positions in LongCatalogue; one TLC job per group of index kinds
@@ -187,6 +188,8 @@ def build(lens, form, elem):
     flat = np.concatenate(rows)
     if form == "flat+list-lengths":
         return ra.RaggedArray(flat, lengths=list(lens))
+    if form == "flat+narrow-lengths":
+        return ra.RaggedArray(flat, lengths=np.array(lens, dtype=np.min_scalar_type(max(list(lens) + [1]))))
     return ra.RaggedArray(flat, lengths=np.array(lens, dtype=int))
 
 
@@ -627,6 +630,20 @@ def replay_batch(rec):
                 found(b_enc, exp, cls, mis, {"%s/%s" % variant: (outcome(exp, got), got)},
                       extra=dict(index_forms=[list(rf), list(cf)]),
                       key="getitem/%s/%s/index-form/%s" % (cls, outcome(exp, got), slots))
+    # an array whose construction does not even iterate as the rows it was built from (the attribute check reports
+    # this for the enumerated shapes; the long shapes only come by here)
+    if long_:
+        for (form, elem), (arr, okc) in arrs.items():
+            if not okc:
+                got = None
+                try:
+                    got = [len(r) for r in arr] if arr is not None else "constructor raised"
+                except Exception as ex:
+                    got = "iteration raised %s" % type(ex).__name__
+                found({"i": 0}, {"rows": "as built"}, "construct/long-shape", 0,
+                      {"%s/%s" % (form, elem): ("rows-differ", {"row_lengths_by_iteration": got if not isinstance(got, list) else got[:12],
+                                                               "lengths_given": list(lens)[:12]})},
+                      key="construct/%s/long-shape/rows-differ" % form)
     # reads must not have changed the arrays
     for (form, elem), (arr, okc) in arrs.items():
         if okc and not _intact(arr, lens, elem):
